@@ -115,6 +115,10 @@ func (s *Sim) receiverHoldsValidated(name, md5 string) (bool, string) {
 
 func (s *Sim) checkArrival(n *RecvNode, a *arrival) {
 	src := strings.SplitN(a.Path, "/", 2)[0]
+	if s.sc.Mode == "w2" && s.on("C04") {
+		s.c04w2Arrival(n, a)
+		return
+	}
 	ann := s.announcedFor(a.Path)
 	if s.on("C01", "C06", "C17") {
 		prop := s.sc.Prop
